@@ -33,7 +33,8 @@ package fsnotify
 //@ alloc kqueue grants reader
 //@ pred KWf(w *kqueue) := w.shared != nil && w.watches != nil && w.watches.wd != nil && w.watches.path != nil && w.watches.byDir != nil &&
 //@        w.watches.seen != nil && w.watches.byUser != nil && ref(w.watches.byUser) != ref(w.watches.seen) && w.shared.done != nil &&
-//@        w.Events == w.shared.Events && w.Errors == w.shared.Errors && w.Events != nil && w.Errors != nil && TabOK(w.watches)
+//@        w.Events == w.shared.Events && w.Errors == w.shared.Errors && w.Events != nil && w.Errors != nil && TabOK(w.watches) &&
+//@        forall(k, int, has(open, k) ==> has(w.watches.wd, k))
 // listedDirs: directories whose entries have been listed and marked as seen (watchDirectoryFiles ran to completion for them)
 //@ ghost listedDirs set[string]
 //@ pred TabOK(ws *watches) := forall(k, int, has(ws.wd, k) ==> ws.wd[k].wd == k) && forall(d, string, has(ws.byDir, d) ==> ws.byDir[d] != nil)
